@@ -78,6 +78,19 @@ theorem history_snap_stable_prefix (db : Db) (ops1 ops2 : List Op) (s : St) (i :
 
 /-! ### non-vacuity: snapshots exist, and the operations in between DO write (into fresh cells) -/
 
+/-- the public `x.ValidateValues(values, quantity)` with ANY values (its own, another Array's container, a
+container made by the caller) and ANY quantity (its own or another pool member's) is a read: the snapshot of `x`
+(and of every other pool member) is the same afterwards, whether the call succeeds, fails or answers from the
+cached verdict -/
+theorem validateWith_reads_only (db : Db) (s : St) (i : Nat) (vals : ValSrc) (qsrc : Option Nat) (m : Nat) (v : Snap)
+    (h : snap s m = some v) : snap (step db s (.validateWith i vals qsrc)).1 m = some v :=
+  op_snap_stable db s _ m v h
+
+/-- the same for `IsValid()` and `CheckValidity()` -/
+theorem validation_reads_only (db : Db) (s : St) (i m : Nat) (v : Snap) (h : snap s m = some v) :
+    snap (step db s (.isValid i)).1 m = some v ∧ snap (step db s (.checkValidity i)).1 m = some v :=
+  ⟨op_snap_stable db s _ m v h, op_snap_stable db s _ m v h⟩
+
 /-! ## Sharing that the code does on purpose (modelled as it is) and freshness of conversion results -/
 
 /-- `Array.GetValues()` / `GetValues(own unit)` hands out the INTERNAL container (no copy) and changes
